@@ -708,6 +708,26 @@ class Box:
         th.join()
         return list(inner_gen(n))
 
+import asyncio
+
+@profile
+async def quick():
+    await asyncio.sleep(0)
+    return 1
+
+@profile
+async def slow(n):
+    await asyncio.sleep(0)
+    await asyncio.sleep(0)
+    t = 0
+    for i in range(n):
+        t += i
+    return t
+
+async def both(n):
+    # overlapping tasks on one thread: the one that entered its wrapper first finishes first
+    return await asyncio.gather(quick(), slow(n))
+
 @profile
 def outer(n):
     th = threading.Thread(target=lambda: (inner(n), list(inner_gen(n))))
@@ -726,12 +746,14 @@ def run_thread_case(case):
     for _ in range(k):
         ns['outer'](n)
         ns['Box']().run(n)
+        ns['asyncio'].run(ns['both'](n))
     # executions of each function's last line (the return / the last yield-loop line)
-    want = {'outer': k, 'run': k, 'inner': 3 * k, 'inner_gen': 2 * k * (n + 1)}
+    # total line executions per function (every line of every body, from the program text)
+    want = {'outer': 4 * k, 'run': 4 * k, 'inner': k * (2 * (2 * n + 3) + 5), 'inner_gen': 2 * k * (2 * n + 1), 'quick': 2 * k, 'slow': k * (n + 5 + n)}
     got = {}
     for (fname, first, name), entries in prof.get_stats().timings.items():
         if entries:
-            got[name] = max(entries)[1] if name != 'inner_gen' else min(entries)[1]
+            got[name] = sum(h for (_l, h, _t) in entries)
     return {'executions': want, 'reported': got, 'count_after': prof.enable_count}
 
 
